@@ -34,13 +34,14 @@ def pyval(spec):
     return spec
 
 
-VALUES = (0, 1, 2, "a", None, "50%", "%s", {"py": "NAN"})
+VALUES = (0, 1, 2, "a", None, "50%", "%s", "{0}", "{}", "{k}", {"py": "NAN"})
 MODS = (("search", search), ("cachedsearch", cachedsearch))
 
 
 def gen_cfg(rng, prop, tier):
     cfg = struct.gen_cfg(rng, "C02", tier, allow_big=False)
     cfg["prop"] = "C14"
+    cfg["odd_names"] = False
     menu = rng.choice((("HNode",), ("HAny",), ("HNode", "HAny", "HMix"), ("HLight",), ("HLightDict",),
                        ("HNodeBag",), ("HNodeNo",), ("HLightNo", "HLight"), ("HNodeEq",), ("PNode",), ("PAny",), ("PNode", "PAny"),
                        ("HNode", "HSym"), ("HAny", "HSym"), ("PAny", "PSym"), ("HAny", "HNode", "HSymMix")))
